@@ -35,6 +35,12 @@ def strBytes (s : String) : List Nat := s.toList.map Char.toNat
 
 def openTag : List Nat := strBytes "<AppendedData"
 def closeTag : List Nat := strBytes "</AppendedData>"
+def encodingKw : List Nat := strBytes "encoding"
+
+/-- `needle in l` (Python `bytes.__contains__`): the needle starts at some position of `l` -/
+def occ (needle : List Nat) : List Nat → Bool
+  | [] => startsWith needle []
+  | x :: xs => startsWith needle (x :: xs) || occ needle xs
 
 /-- the `while` loop of `_find_enclosed_content_range` for `open_char ≠ close_char` -/
 def enclosedLoop (content opn cls : List Nat) (startPos : Nat) : Nat → Nat → Nat → Nat → Option (Nat × Nat)
@@ -84,7 +90,7 @@ def determineEncoding (content : List Nat) : Option (List Nat) := do
   -- rfind = -1 is passed to find as a start position counted from the end (-1): last byte
   let pos := match brfind openTag content with | some p => p | none => content.length - 1
   -- find("encoding", pos) = -1 is again passed on as start position -1
-  let pos2 := match bfind (strBytes "encoding") content pos with | some p => p | none => content.length - 1
+  let pos2 := match bfind encodingKw content pos with | some p => p | none => content.length - 1
   let r ← enclosedRange content pos2 [34] [34]                 -- '"'
   match r.2 with
   | some e => some (pySlice content r.1 e)
